@@ -213,10 +213,18 @@ fn extract_mod(name: &str, items: &[Item], overlay: &Value) -> Option<Value> {
         if im.trait_.is_none() && self_ty_s == enum_ident {
             inherent_impls += 1;
         }
+        // associated types of every trait impl of this self type (Self::Item in DoubleEndedIterator
+        // is declared by the Iterator impl)
         let mut assoc_types = BTreeMap::new();
-        for ii in &im.items {
-            if let ImplItem::Type(t) = ii {
-                assoc_types.insert(t.ident.to_string(), t.ty.clone());
+        for j in items {
+            if let Item::Impl(jm) = j {
+                if flat(&jm.self_ty) == self_ty_s {
+                    for ii in &jm.items {
+                        if let ImplItem::Type(t) = ii {
+                            assoc_types.insert(t.ident.to_string(), t.ty.clone());
+                        }
+                    }
+                }
             }
         }
         let mut item_names = Vec::new();
@@ -430,7 +438,8 @@ fn extract_fn(
         let mut rw0 = Rw { ov: None, ..rw.clone_shallow() };
         rw0.visit_block_mut(&mut canon_block);
     }
-    let canon_body = flat(&canon_block);
+    // trailing commas depend on rustc's line breaking of the expansion, not on the macro's output
+    let canon_body = flat(&canon_block).replace(" , }", " }").replace(" , )", " )").replace(" , ]", " ]");
 
     let mut block = f.block.clone();
     rw.visit_block_mut(&mut block);
@@ -696,9 +705,9 @@ impl<'a> VisitMut for Rw<'a> {
         let mut out: Vec<Stmt> = Vec::new();
         let stmts = std::mem::take(&mut b.stmts);
         for mut s in stmts {
-            // anchor text is computed on the statement as emitted by the macro (before rewriting)
-            let anchor_text = flat(&s);
+            // anchor text is the statement after identifier canonicalisation and rules R1-R9
             self.visit_stmt_mut(&mut s);
+            let anchor_text = flat(&s);
             // `use` declarations inside bodies are kept (Verus accepts them)
             let mut before = Vec::new();
             let mut after = Vec::new();
@@ -742,6 +751,21 @@ impl<'a> VisitMut for Rw<'a> {
         };
         if let Expr::Unsafe(_) = e {
             self.unsafe_seen += 1;
+        }
+        // R9 on a negated suffixed literal: `-2i8` is one literal of the macro's output
+        if let Expr::Unary(u) = e {
+            if let (UnOp::Neg(_), Expr::Lit(l)) = (&u.op, &*u.expr) {
+                if let Lit::Int(li) = &l.lit {
+                    if !li.suffix().is_empty() {
+                        let n = self.lits.len();
+                        self.lits.push(format!("-{}", li));
+                        let id = Ident::new(&format!("__vx_lit_{}_{}", self.lit_prefix, n), Span::call_site());
+                        *e = parse_quote!(#id());
+                        self.rule("R9");
+                        return;
+                    }
+                }
+            }
         }
         visit_mut::visit_expr_mut(self, e);
 
